@@ -143,6 +143,15 @@ let run_case (k : string) (toks : string list) : string list =
      | Ok h -> [hex_of_nlist h]
      | Panic c -> status_tokens (Panic c)
      | OutOfFuel -> ["OUTOFFUEL"])
+  (* ref <mode> <out_len> [<piece>,...]: the reference implementation model (C15) *)
+  | "ref" :: mode :: out_len :: rest ->
+    let pieces = (match rest with [] | [""] -> [] | [s] -> List.map parse (String.split_on_char ',' s) | _ -> failwith "ref") in
+    let m = (match mode_of mode with
+        | MHash -> RHash | MKeyed k -> RKeyed k | MDerive c -> RDerive c | MDeriveK c -> RDerive c) in
+    (match ref_run m pieces (n_of_string out_len) with
+     | Ok b -> ["x" ^ hex_of_nlist b]
+     | Panic c -> status_tokens (Panic c)
+     | OutOfFuel -> ["OUTOFFUEL"])
   | "H" :: mode :: plat :: ops ->
     let p = platform_of plat in
     let pname = (match plat with
